@@ -15,6 +15,7 @@ package main
 // every further call; BuildJournal over the directory equals BuildJournal over those parses.
 
 import (
+	"bytes"
 	"fmt"
 	"os"
 	"path/filepath"
@@ -29,7 +30,7 @@ import (
 )
 
 var c19Names = []string{"10", "9", "B", "a", "é"}
-var c19Kinds = []string{"absent", "good1", "good2", "good3", "empty", "cut-in-header", "cut-in-entity", "cut-last-byte", "corrupt", "sub-directory", "vanishes", "replaced-by-directory", "symlink-to-good-file", "dangling-symlink"}
+var c19Kinds = []string{"absent", "good1", "good2", "good3", "empty", "cut-in-header", "cut-in-entity", "cut-last-byte", "corrupt", "sub-directory", "vanishes", "replaced-by-directory", "symlink-to-good-file", "dangling-symlink", "good2-header-last"}
 
 var c19GoodCache [][]byte
 
@@ -57,6 +58,17 @@ func c19Good() [][]byte {
 		mk(1, []string{"063000_L..N01", "L02N", "L03N"}, []string{"064500_L..N02", "L01N"}),
 		mk(2, []string{"064500_L..N02", "L01N", "L02N"}),
 	}
+	// the same message as good2 in a non-canonical (but valid) encoding: the entities first, the
+	// header last (protobuf fields may come in any order)
+	{
+		ts := uint64(1700000000 + 60)
+		hdr := marshalFeed(newFeed(&ts))
+		full := c19GoodCache[1]
+		if !bytes.HasPrefix(full, hdr) {
+			harnessBug("canonical encoding does not start with the header")
+		}
+		c19GoodCache = append(c19GoodCache, append(append([]byte{}, full[len(hdr):]...), hdr...))
+	}
 	return c19GoodCache
 }
 
@@ -73,6 +85,8 @@ func c19Content(kind int) []byte {
 		return g[1]
 	case "good3", "vanishes", "replaced-by-directory":
 		return g[2]
+	case "good2-header-last":
+		return g[3]
 	case "empty":
 		return []byte{}
 	case "cut-in-header":
@@ -317,7 +331,7 @@ func scratchBase() string {
 	return ""
 }
 
-var c19QuickKinds = []int{0, 1, 2, 4, 6, 8, 9, 10, 11, 12, 13}
+var c19QuickKinds = []int{0, 1, 2, 4, 6, 8, 9, 10, 11, 12, 13, 14}
 
 // c19NameOrder: good files under names whose byte order differs from "natural", extension-less,
 // case-insensitive or numeric order: every subset of 4 of 18 names.
@@ -381,6 +395,90 @@ func c19NameOrder(c *Ctx) {
 		c.Fail("directory-source:wrong-order", "files %q were yielded in the order %q, lexicographic file-name order is %q", names, got, sorted)
 	}
 	c.Witness("tricky_names")
+}
+
+// c19BadRuns: N unreadable / unparseable entries in a row (by name order) between good files,
+// for N around powers of two: however long the run, the stream goes on.
+var c19RunLengths = []int{1, 15, 16, 17, 63, 64, 65, 66, 130, 257, 520}
+
+func c19BadRuns(c *Ctx) {
+	n := c19RunLengths[c.Free("bad_entries_in_a_row", len(c19RunLengths))]
+	kind := c.Free("kind_of_bad_entry", 4) // 0 empty, 1 corrupt, 2 sub-directory, 3 mixed
+	where := c.Free("position", 3)         // 0 between two good files, 1 before the only good file, 2 after it
+	dir, err := os.MkdirTemp(scratchBase(), "verifc19R")
+	if err != nil {
+		harnessBug("mkdtemp: %v", err)
+	}
+	defer os.RemoveAll(dir)
+	g := c19Good()
+	write := func(name string, b []byte) {
+		if err := os.WriteFile(filepath.Join(dir, name), b, 0644); err != nil {
+			harnessBug("write: %v", err)
+		}
+	}
+	var want [][]byte
+	if where != 1 {
+		write("a-first", g[0])
+		want = append(want, g[0])
+	}
+	for i := 0; i < n; i++ {
+		name := fmt.Sprintf("m-bad-%04d", i)
+		k := kind
+		if kind == 3 {
+			k = i % 3
+		}
+		switch k {
+		case 0:
+			write(name, nil)
+		case 1:
+			write(name, c19Content(8))
+		case 2:
+			os.Mkdir(filepath.Join(dir, name), 0755)
+		}
+	}
+	if where != 2 {
+		write("z-last", g[2])
+		want = append(want, g[2])
+	}
+	desc := fmt.Sprintf("%d bad entries (kind %d) in a row, position %d", n, kind, where)
+	c.Input(hash64(desc), true, func() string { return desc })
+	var src *journal.DirectoryGtfsrtSource
+	if !guardSig(c, "NewDirectoryGtfsrtSource", func() { src, err = journal.NewDirectoryGtfsrtSource(dir) }) || err != nil {
+		c.Fail("source-construction-failed", "%v", err)
+		return
+	}
+	var got []string
+	if !guardSig(c, "DirectoryGtfsrtSource.Next", func() {
+		for i := 0; i < 5; i++ {
+			r := src.Next()
+			if r == nil {
+				return
+			}
+			got = append(got, dumpRealtime(r, rtDumpOpts{links: true}))
+		}
+	}) {
+		return
+	}
+	c.Steps(n + 2)
+	var wl []string
+	for _, b := range want {
+		r, err := gtfs.ParseRealtime(b, c19Opts())
+		if err != nil {
+			harnessBug("seed: %v", err)
+		}
+		wl = append(wl, dumpRealtime(r, rtDumpOpts{links: true}))
+	}
+	c.Outcome(strings.Join(got, "=====\n"))
+	if strings.Join(wl, "=====\n") != strings.Join(got, "=====\n") {
+		sig := "sequence-differs"
+		if len(got) < len(wl) {
+			sig = "feeds-lost"
+		} else if len(got) > len(wl) {
+			sig = "extra-feeds"
+		}
+		c.Fail("directory-source:"+sig, "%s: Next yielded %d feeds, expected %d", desc, len(got), len(wl))
+	}
+	c.Witness("long_run_of_bad_entries")
 }
 
 // c19LargeFeed builds a valid feed of at least size bytes (many trip updates).
@@ -478,14 +576,14 @@ func init() {
 	register(&Check{
 		ID:    "C19",
 		Level: "fault_enumeration",
-		Rule: "every assignment of {absent, good1, good2, good3, empty, cut-in-header, cut-in-entity, cut-last-byte, corrupt, sub-directory, vanishes after listing, replaced by a directory after listing, symlink to a good file, dangling symlink} to the names 10, 9, B, a, é (thorough: 14^5 = 537 824 directories; quick: the first 4 names, 14^4 = 38 416) - x 2 creation orders, on a real temporary directory; plus every 4-subset of 18 file names (byte order differing from extension-less / natural / case-insensitive order; names that are not valid UTF-8, contain a newline, start with a blank, a dot or a dash, are 240 bytes long); plus 3-name directories replayed while the wall clock jumps 2 s before chosen Next calls (the source reports progress once per second); plus directories in which one of three good files is 70 KiB / 1 MiB / 4 MiB / 17 MiB large, at each position; " +
+		Rule: "every assignment of {absent, good1, good2, good3, empty, cut-in-header, cut-in-entity, cut-last-byte, corrupt, sub-directory, vanishes after listing, replaced by a directory after listing, symlink to a good file, dangling symlink} to the names 10, 9, B, a, é (thorough: 14^5 = 537 824 directories; quick: the first 4 names, 14^4 = 38 416) - x 2 creation orders, on a real temporary directory; plus every 4-subset of 18 file names (byte order differing from extension-less / natural / case-insensitive order; names that are not valid UTF-8, contain a newline, start with a blank, a dot or a dash, are 240 bytes long); plus runs of 1..520 bad entries in a row before / between / after good files; a good file in a non-canonical field order (header last); plus 3-name directories replayed while the wall clock jumps 2 s before chosen Next calls (the source reports progress once per second); plus directories in which one of three good files is 70 KiB / 1 MiB / 4 MiB / 17 MiB large, at each position; " +
 			"non-trivial = distinct directories with >= 2 entries; oracle = independent parses of the readable, parseable entries in byte order of their names, nil afterwards, and equality of the journals",
 		Assumptions: []string{"unreadable means: is a directory or no longer exists (the checks run as root, so permission faults cannot be produced)", "whether a damaged file still 'parses as GTFS-realtime' is decided independently of the library, by strictly decoding its bytes as a FeedMessage"},
 		Scenarios: func(tier string) []*Scenario {
 			if tier == "thorough" {
-				return []*Scenario{{Name: "directories-5-names-14-kinds", Bound: -1, Run: c19Harness(5, true)}, {Name: "large-files", Bound: -1, Run: c19Large}, {Name: "name-order", Bound: -1, Run: c19NameOrder}, {Name: "clock-jumps-3-names", Bound: -1, Run: c19HarnessClock(3, true, true)}}
+				return []*Scenario{{Name: "directories-5-names-14-kinds", Bound: -1, Run: c19Harness(5, true)}, {Name: "large-files", Bound: -1, Run: c19Large}, {Name: "name-order", Bound: -1, Run: c19NameOrder}, {Name: "clock-jumps-3-names", Bound: -1, Run: c19HarnessClock(3, true, true)}, {Name: "bad-runs", Bound: -1, Run: c19BadRuns}}
 			}
-			return []*Scenario{{Name: "directories-4-names-14-kinds", Bound: -1, Run: c19Harness(4, true)}, {Name: "large-files", Bound: -1, Run: c19Large}, {Name: "name-order", Bound: -1, Run: c19NameOrder}, {Name: "clock-jumps-3-names", Bound: -1, Run: c19HarnessClock(3, false, true)}}
+			return []*Scenario{{Name: "directories-4-names-14-kinds", Bound: -1, Run: c19Harness(4, true)}, {Name: "large-files", Bound: -1, Run: c19Large}, {Name: "name-order", Bound: -1, Run: c19NameOrder}, {Name: "clock-jumps-3-names", Bound: -1, Run: c19HarnessClock(3, false, true)}, {Name: "bad-runs", Bound: -1, Run: c19BadRuns}}
 		},
 	})
 }
